@@ -25,6 +25,9 @@ def run(tier, seed):
     verify_contracts(eng, [c for c in curves.contracts if c.setup], chk)
     eng = engine([c for c in curves.contracts if not c.setup] + [curves.guard_symbolic])
     verify_contracts(eng, [curves.guard_symbolic], chk)
+    eng = engine([])
+    curves.install_polygon(eng)
+    verify_contracts(eng, [curves.polygon_contract, curves.eval_contract], chk)
     from vlib import smt
     smt.close_pool()
     from bounded import curves_rt
